@@ -11,7 +11,7 @@ worker() {
   while read id; do
     i=$((i+1)); [ $((i % J)) -eq $((k % J)) ] || continue
     git -C $wt checkout -q -- . ; git -C $wt apply /verif/seeded/$id/patch.diff || { echo "$id NOAPPLY" >> $W/out$k.tsv; continue; }
-    for c in C01 C02 C03 C04 C05 C06 C07 C08 C09 C10 C11 C12 C13 C14 C15 C16 C17 C18 C19 C20; do
+    for c in ${CHECKS:-C01 C02 C03 C04 C05 C06 C07 C08 C09 C10 C11 C12 C13 C14 C15 C16 C17 C18 C19 C20}; do
       VERIF_REPO=$wt VERIF_EVIDENCE_DIR=$W/ev$k VERIF_REPLAY_DIR=$W/rp$k /verif/check $c --tier quick > $W/log$k.txt 2>&1; rc=$?
       first=$(grep -m1 -E "^  (obligation|bounded)" $W/log$k.txt | cut -c1-160 | tr '\t' ' ')
       printf "%s\t%s\t%s\t%s\n" $id $c $rc "$first" >> $W/out$k.tsv
@@ -20,4 +20,21 @@ worker() {
   git -C /repo worktree remove --force $wt
 }
 for k in $(seq 1 $J); do worker $k & done; wait
-cat $W/out*.tsv | sort > $OUT; rm -rf $W; wc -l $OUT
+if [ -n "$CHECKS" ] && [ -f $OUT ]; then
+  # partial re-run: replace the re-run columns in the existing table
+  /venv/bin/python - "$OUT" $W <<'PY'
+import csv, glob, sys
+out, w = sys.argv[1], sys.argv[2]
+rows = {(r[0], r[1]): r for r in csv.reader(open(out), delimiter="\t") if len(r) >= 3}
+for f in glob.glob(w + "/out*.tsv"):
+    for r in csv.reader(open(f), delimiter="\t"):
+        if len(r) >= 3:
+            rows[(r[0], r[1])] = r
+with open(out, "w") as fh:
+    for k in sorted(rows):
+        fh.write("\t".join(rows[k]) + "\n")
+PY
+else
+  cat $W/out*.tsv | sort > $OUT
+fi
+rm -rf $W; wc -l $OUT
